@@ -2,6 +2,8 @@
 // lists are identical across Go versions and processes.
 package prng
 
+import "vh/dict"
+
 type R struct{ s uint64 }
 
 func New(seed uint64) *R { return &R{s: seed} }
@@ -73,7 +75,9 @@ func (r *R) Bits(width int) uint64 {
 	} else {
 		max = (uint64(1) << uint(width)) - 1
 	}
-	switch r.Intn(14) {
+	switch r.Intn(16) {
+	case 14: // the low k bits set: sub-field masks (a 12-bit id in a 16-bit field, a 20-bit label in 32 bits)
+		return max >> uint(r.Intn(width))
 	case 12: // just below the maximum: where protocols put their reserved values (OFPP_*, OFPG_ALL, OFPTT_ALL, OFPCML_*)
 		return (max - uint64(r.Intn(16))) & max
 	case 13: // just above zero
@@ -97,9 +101,33 @@ func (r *R) Bits(width int) uint64 {
 	case 8:
 		// one bit set
 		return (uint64(1) << uint(r.Intn(width))) & max
+	case 9: // a constant of the tree under test (or its neighbour): what its code compares fields with
+		return fromDict(r.U64(), dict.Ints, max)
+	case 10: // a constant the tree has and the pinned baseline has not, when there is one
+		if len(dict.NovelInts) > 0 {
+			return fromDict(r.U64(), dict.NovelInts, max)
+		}
+		return r.U64() & max
 	default:
 		return r.U64() & max
 	}
+}
+
+// fromDict maps one PRNG draw to a dictionary entry that fits the width (3 in 4) or one of its neighbours; without a
+// suitable entry the draw itself is the value, so the stream advances by one draw either way.
+func fromDict(u uint64, list []uint64, max uint64) uint64 {
+	n := dict.CountLE(list, max)
+	if n == 0 {
+		return u & max
+	}
+	v := list[(u>>8)%uint64(n)]
+	switch u & 7 {
+	case 0:
+		return (v + 1) & max
+	case 1:
+		return (v - 1) & max
+	}
+	return v
 }
 
 // Pick returns one of the given ints.
